@@ -243,10 +243,13 @@ input_merge_heap!(c14_in_merge_pegin_witness_onesided, c14_in_merge_pegin_witnes
 // Measured: with fully symbolic keys (symbolic relative order => symbolic B-tree slot positions for the heap-owning
 // values) the harness does not finish in 15 min.  So the *leading* key byte is concrete and different in the two
 // operands (the order of the two keys is then concrete; merging in both directions exercises both insertion orders),
-// every other key byte and the values are symbolic.  `*_identical`: both operands hold the same entry.
+// every other key byte and the values are symbolic.  `#[kani::unwind(5)]`: the consuming B-tree iterator inside
+// `extend(other.map)` descends with `loop { match node.force() { Leaf => return, Internal => descend } }`, which CBMC
+// unwinds forever without a bound (measured); with the bound the unwinding assertion proves the depth is 0/1.  `*_identical`: both operands hold the same entry.
 macro_rules! input_merge_map {
     ($dis:ident, $ident:ident, $field:ident, $mkk:expr, $mkv:expr) => {
         #[kani::proof]
+        #[kani::unwind(5)]
         fn $dis() {
             let mk = $mkk;
             let (k1, k2) = (mk(0x21u8), mk(0x7eu8));
@@ -264,6 +267,7 @@ macro_rules! input_merge_map {
             fgt(a1); fgt(b2);
         }
         #[kani::proof]
+        #[kani::unwind(5)]
         fn $ident() {
             let mk = $mkk;
             let k1 = mk(kani::any());
